@@ -25,6 +25,7 @@
   hypothesis `-2^63 < l` below: the model is wrong at exactly that one argument value.
 -/
 import SMGo.Proofs.CTIRRefineUtils
+import SMGo.Proofs.CTIRRefineNaf
 namespace SMGo.Props.C20IR
 open SMGo SMGo.Model.CTIR SMGo.Gen.CTIRProg SMGo.Proofs.CTIRRefineUtils
 
@@ -63,5 +64,89 @@ example : (match runV prog (fun _ => .int 0) (fun _ _ => []) 1000 f_utils_Consta
 #print axioms ir_constantTimeCmp_eq_model
 #print axioms ir_constantTimeCmp_ok
 #print axioms ir_constantTimeCmp_panic
+
+end SMGo.Props.C20IR
+
+namespace SMGo.Props.C20IR
+open SMGo SMGo.Model.CTIR SMGo.Gen.CTIRProgFn SMGo.Proofs.CTIRRefineUtils SMGo.Proofs.CTIRRefineNaf
+variable {G : Nat → Val} {X : Oracle}
+
+/-! ## utils.DecomposeNAF, getBit, getBits (program SMGo/Gen/CTIRProgFn.lean, sub-command `ctirfn`)
+
+  `out : []int` is `intsV out`, a bool is `boolV`.  Hypotheses: `-2^63 < n` (the model is wrong at
+  n = math.MinInt64: `naf_minInt64_disagree` — `n-1` wraps, Go and the IR enter the loop and index `s`
+  out of range, the model returns `out` unchanged) and `n + 6 < 2^63` (or `len(s) < 2^60`: the increments
+  `outIdx += w; outIdx++` cannot wrap).  Nothing is assumed about `out`, `s` or `w`.  Fuel `70·max(n,0) + 20`.
+  getBits is proved for 0 ≤ w ≤ 61 (DecomposeNAF uses 1..7; at w = math.MaxInt64 `w+1` is a negative shift
+  count: Go panics, the IR is stuck, the Nat-typed model returns a value; 62 ≤ w is not proved). -/
+
+/-- DecomposeNAF: the decoded run of the IR IS the model -/
+theorem ir_decomposeNAF_eq_model (out : List Int) (s : Bytes) (n w : Int)
+    (hn1 : -9223372036854775808 < n) (hn2 : n + 6 < 9223372036854775808) (f : Nat) (hf : fuelNaf n ≤ f) :
+    outcomeInts (runV prog G X f f_utils_DecomposeNAF [intsV out, bytesV s, .int n, .int w])
+      = Model.Utils.decomposeNAF (some out) (some s) n w :=
+  SMGo.Proofs.CTIRRefineNaf.ir_decomposeNAF_eq_model out s n w hn1 hn2 f hf
+
+/-- … under the weakest hypotheses proved -/
+theorem ir_decomposeNAF_eq_model' (out : List Int) (s : Bytes) (n w : Int)
+    (hn1 : -9223372036854775808 < n) (hn2 : n < 9223372036854775808)
+    (hs : n + 6 < 9223372036854775808 ∨ s.length < 1152921504606846976) (f : Nat) (hf : fuelNaf n ≤ f) :
+    outcomeInts (runV prog G X f f_utils_DecomposeNAF [intsV out, bytesV s, .int n, .int w])
+      = Model.Utils.decomposeNAF (some out) (some s) n w :=
+  SMGo.Proofs.CTIRRefineNaf.ir_decomposeNAF_eq_model' out s n w hn1 hn2 hs f hf
+
+theorem ir_naf_ok (out : List Int) (s : Bytes) (n w : Int)
+    (hn1 : -9223372036854775808 < n) (hn2 : n + 6 < 9223372036854775808) (r : List Int)
+    (h : Model.Utils.decomposeNAF (some out) (some s) n w = .ok r) :
+    ∀ f, fuelNaf n ≤ f →
+      runV prog G X f f_utils_DecomposeNAF [intsV out, bytesV s, .int n, .int w] = .ret [intsV r] :=
+  SMGo.Proofs.CTIRRefineNaf.ir_naf_ok out s n w hn1 hn2 r h
+
+/-- an index out of range (`out` too short, `s` too short): stuck with every fuel -/
+theorem ir_naf_stuck (out : List Int) (s : Bytes) (n w : Int)
+    (hn1 : -9223372036854775808 < n) (hn2 : n + 6 < 9223372036854775808) (hw : ¬ (w ≤ 0 ∨ w > 7))
+    (h : Model.Utils.decomposeNAF (some out) (some s) n w = .panic) :
+    ∀ f, runV prog G X f f_utils_DecomposeNAF [intsV out, bytesV s, .int n, .int w] = .stuck :=
+  SMGo.Proofs.CTIRRefineNaf.ir_naf_stuck out s n w hn1 hn2 hw h
+
+/-- the explicit panic("nil or invalid parameters") -/
+theorem ir_naf_panic (out : List Int) (s : Bytes) (n w : Int) (hw : w ≤ 0 ∨ w > 7) :
+    ∀ f, 3 ≤ f → runV prog G X f f_utils_DecomposeNAF [intsV out, bytesV s, .int n, .int w] = .panic :=
+  SMGo.Proofs.CTIRRefineNaf.ir_naf_panic out s n w hw
+
+/-- the excluded argument n = math.MinInt64 -/
+theorem ir_naf_minInt64_disagree (out : List Int) (s : Bytes) (w : Nat) (hw1 : 1 ≤ w) (hw7 : w ≤ 7)
+    (hs : s.length < 1152921504606846976) :
+    Model.Utils.decomposeNAF (some out) (some s) (-9223372036854775808) (w : Int) = .ok out ∧
+      ∀ f, runV prog G X f f_utils_DecomposeNAF [intsV out, bytesV s, .int (-9223372036854775808), .int (w : Int)]
+        = .stuck :=
+  SMGo.Proofs.CTIRRefineNaf.ir_naf_minInt64_disagree out s w hw1 hw7 hs
+
+theorem ir_getBit_ok (s : Bytes) (idx : Nat) (carry : Bool) (hidx : idx < 9223372036854775808)
+    (bit : Nat) (c' : Bool) (h : Model.Utils.getBit s idx carry = .ok (bit, c')) :
+    ∀ f, fuelBit ≤ f → runV prog G X f f_utils_getBit [bytesV s, .int (idx : Int), boolV carry]
+      = .ret [.int (bit : Int), boolV c'] :=
+  SMGo.Proofs.CTIRRefineNaf.ir_getBit_ok s idx carry hidx bit c' h
+
+theorem ir_getBit_panic (s : Bytes) (idx : Nat) (carry : Bool) (hidx : idx < 9223372036854775808)
+    (h : Model.Utils.getBit s idx carry = .panic) :
+    ∀ f, runV prog G X f f_utils_getBit [bytesV s, .int (idx : Int), boolV carry] = .stuck :=
+  SMGo.Proofs.CTIRRefineNaf.ir_getBit_panic s idx carry hidx h
+
+theorem ir_getBits_ok (s : Bytes) (idx w : Nat) (hidx : idx < 9223372036854775808) (hw : w ≤ 61)
+    (d : Nat) (h : Model.Utils.getBits s idx w = .ok d) :
+    ∀ f, fuelBit ≤ f → runV prog G X f f_utils_getBits [bytesV s, .int (idx : Int), .int (w : Int)]
+      = .ret [.int (d : Int)] :=
+  SMGo.Proofs.CTIRRefineNaf.ir_getBits_ok s idx w hidx hw d h
+
+theorem ir_getBits_panic (s : Bytes) (idx w : Nat) (hidx : idx < 9223372036854775808) (hw : w ≤ 61)
+    (h : Model.Utils.getBits s idx w = .panic) :
+    ∀ f, runV prog G X f f_utils_getBits [bytesV s, .int (idx : Int), .int (w : Int)] = .stuck :=
+  SMGo.Proofs.CTIRRefineNaf.ir_getBits_panic s idx w hidx hw h
+
+theorem fuelNaf_eq (n : Int) : SMGo.Proofs.CTIRRefineNaf.fuelNaf n = 70 * n.toNat + 20 := rfl
+
+#print axioms ir_decomposeNAF_eq_model
+#print axioms ir_naf_minInt64_disagree
 
 end SMGo.Props.C20IR
